@@ -17,5 +17,6 @@
 package server
 
 // verifYield marks a point where the verification harness (build tag "verif") can pause a
-// goroutine to choose an interleaving. It does nothing in regular builds.
-func verifYield(string) {}
+// goroutine to choose an interleaving; subject is the controller the goroutine works for.
+// It does nothing in regular builds.
+func verifYield(string, any) {}
